@@ -57,6 +57,21 @@ func init() {
 			in.p.Assume(in.ts.And(in.ts.FLe(loT, t), in.ts.FLe(t, hiT)))
 			return t
 		},
+		"zzvMInt": func(in *Interp, a []Value) Value {
+			name := str(a[0])
+			lo, hi := cInt(in, a[1], "lo"), cInt(in, a[2], "hi")
+			if lo == hi {
+				return in.ts.BV(64, uint64(lo))
+			}
+			k := in.p.symCount[name]
+			in.p.symCount[name]++
+			full := fmt.Sprintf("%s#%d", name, k)
+			bnd := math.Max(math.Abs(float64(lo)), math.Abs(float64(hi)))
+			t := in.ts.DyVar(full, 0, bnd)
+			in.p.inputs = append(in.p.inputs, inputRec{name: full, kind: "mi", term: t})
+			in.p.Assume(in.ts.And(in.ts.SLe(in.ts.BV(64, uint64(lo)), t), in.ts.SLe(t, in.ts.BV(64, uint64(hi)))))
+			return t
+		},
 		"zzvIntIn": func(in *Interp, a []Value) Value {
 			lo, hi := a[1].(*Term), a[2].(*Term)
 			if lo.IsConst() && hi.IsConst() && lo.S64() == hi.S64() {
